@@ -32,11 +32,15 @@ struct Sim<'a> {
     rng: &'a mut SplitMix64,
     tags: usize,
     restructs_after_tag: usize,
+    max_size: usize,
+    splitby_interior: usize,
+    splitby_interior_big: usize,
+    splitby_trivial: usize,
 }
 
 impl<'a> Sim<'a> {
     fn new(kind: Kind, own: bool, pol: u64, rng: &'a mut SplitMix64) -> Self {
-        Sim { kind, own, pol, ctr: 0, created: 0, seqs: Vec::new(), ops: Vec::new(), rng, tags: 0, restructs_after_tag: 0 }
+        Sim { kind, own, pol, ctr: 0, created: 0, seqs: Vec::new(), ops: Vec::new(), rng, tags: 0, restructs_after_tag: 0, max_size: 0, splitby_interior: 0, splitby_interior_big: 0, splitby_trivial: 0 }
     }
     fn prio(&mut self) -> String {
         if self.own {
@@ -71,10 +75,59 @@ impl<'a> Sim<'a> {
             }
         }
     }
+    /// a tag that keeps a monotone sequence monotone (the direction may flip)
+    fn mono_tag(&mut self) -> Tag {
+        match self.kind {
+            Kind::Sum => Tag(1, self.rng.range_i64(-1000, 1000)),
+            Kind::Aff => {
+                let a = match self.rng.below(10) {
+                    0 => 0,
+                    1 | 2 | 3 => -1,
+                    _ => 1,
+                };
+                Tag(a, self.rng.range_i64(-20, 20))
+            }
+        }
+    }
+    /// `split_by` at a random element of a sorted treap (lands in the interior), observe, merge back
+    fn sorted_splitby(&mut self, i: usize) -> bool {
+        let s = self.seqs[i].clone();
+        if s.is_empty() {
+            return false;
+        }
+        let asc = s.windows(2).all(|w| w[0] <= w[1]);
+        let desc = s.windows(2).all(|w| w[0] >= w[1]);
+        if !asc && !desc {
+            return false;
+        }
+        let c = s[self.rng.below(s.len() as u64) as usize];
+        let rel = if asc {
+            if self.rng.chance(1, 2) { "lt" } else { "le" }
+        } else if self.rng.chance(1, 2) {
+            "gt"
+        } else {
+            "ge"
+        };
+        self.p_splitby(i, rel, c);
+        let n = self.seqs.len();
+        self.p_obs("agg", i);
+        self.p_obs("agg", n - 1);
+        if self.rng.chance(1, 2) {
+            self.p_obs("last", i);
+            self.p_obs("first", n - 1);
+        }
+        self.p_merge(i, n - 1);
+        true
+    }
     fn restruct(&mut self) {
         if self.tags > 0 {
             self.restructs_after_tag += 1;
         }
+        let m = self.seqs.iter().map(|s| s.len()).max().unwrap_or(0);
+        self.max_size = self.max_size.max(m);
+    }
+    fn total(&self) -> usize {
+        self.seqs.iter().map(|s| s.len()).sum()
     }
     // ---- primitive operations -----------------------------------------------------------
     fn p_new(&mut self) {
@@ -104,6 +157,15 @@ impl<'a> Sim<'a> {
     fn p_splitby(&mut self, i: usize, rel: &str, c: i64) {
         self.ops.push(format!("splitby {} {} {}", i, rel, c));
         let k = self.seqs[i].iter().take_while(|&&e| holds(rel, e, c)).count();
+        let n = self.seqs[i].len();
+        if k == 0 || k == n {
+            self.splitby_trivial += 1;
+        } else {
+            self.splitby_interior += 1;
+            if n >= 6 {
+                self.splitby_interior_big += 1;
+            }
+        }
         let r = self.seqs[i].split_off(k);
         self.seqs.push(r);
         self.restruct();
@@ -246,7 +308,8 @@ fn holds(rel: &str, e: i64, c: i64) -> bool {
 }
 
 /// (i) exhaustive small scope: every assignment of priorities `[n] -> [n]` (all relative orders,
-/// ties included) x every split point, three build orders, tags before and after the split.
+/// ties included) x every split point x both items x three build orders (left-to-right,
+/// right-to-left, balanced), tags before and after the split. Everything inside the stated domain.
 fn exhaustive(focus: &str, n_all: usize, n_perm: usize, emit: &mut dyn FnMut(String), st: &mut Stats, rng: &mut SplitMix64) {
     for n in 1..=n_perm {
         let total: u64 = if n <= n_all { (n as u64).pow(n as u32) } else { (1..=n as u64).product() };
@@ -269,97 +332,182 @@ fn exhaustive(focus: &str, n_all: usize, n_perm: usize, emit: &mut dyn FnMut(Str
                 }
             }
             for k in 0..=n {
-                let kind = if (code + k as u64) % 2 == 0 { Kind::Sum } else { Kind::Aff };
-                let variant = (code / 2 + k as u64) % 3;
-                let mut s = Sim::new(kind, false, 0, rng);
-                let vals: Vec<i64> = (0..n).map(|i| (i as i64 + 1) * 3 - 7).collect();
-                let item = |s: &mut Sim, i: usize| {
-                    s.ops.push(format!("item {} {}", vals[i], ps[i]));
-                    s.seqs.push(vec![vals[i]]);
-                };
-                match variant {
-                    0 => {
-                        item(&mut s, 0);
-                        for i in 1..n {
-                            item(&mut s, i);
-                            s.p_merge(0, 1);
+                for kind in [Kind::Sum, Kind::Aff] {
+                    for variant in 0..3 {
+                        let mut s = Sim::new(kind, false, 0, rng);
+                        let vals: Vec<i64> = (0..n).map(|i| (i as i64 + 1) * 3 - 7).collect();
+                        let item = |s: &mut Sim, i: usize| {
+                            s.ops.push(format!("item {} {}", vals[i], ps[i]));
+                            s.seqs.push(vec![vals[i]]);
+                        };
+                        match variant {
+                            0 => {
+                                item(&mut s, 0);
+                                for i in 1..n {
+                                    item(&mut s, i);
+                                    s.p_merge(0, 1);
+                                }
+                            }
+                            1 => {
+                                item(&mut s, n - 1);
+                                for i in (0..n - 1).rev() {
+                                    item(&mut s, i);
+                                    s.p_merge(1, 0);
+                                }
+                            }
+                            _ => {
+                                // balanced: merge neighbours pairwise, round after round
+                                for i in 0..n {
+                                    item(&mut s, i);
+                                }
+                                while s.seqs.len() > 1 {
+                                    let mut i = 0;
+                                    while i + 1 < s.seqs.len() {
+                                        s.p_merge(i, i + 1);
+                                        i += 1;
+                                    }
+                                }
+                            }
                         }
+                        // first tag never collapses the elements (a != 0), so positions stay visible
+                        let mut t1 = s.tag();
+                        if t1.0 == 0 {
+                            t1.0 = -1;
+                        }
+                        let (t2, t3) = (s.tag(), s.tag());
+                        s.p_tag(0, t1);
+                        s.p_splitat(0, k);
+                        s.p_tag(0, t2);
+                        for w in ["agg", "first", "last"] {
+                            s.p_obs(w, 0);
+                            s.p_obs(w, 1);
+                        }
+                        s.p_tag(1, t3);
+                        s.p_obs("collect", 1);
+                        s.p_merge(0, 1);
+                        s.p_obs("agg", 0);
+                        s.p_obs("collect", 0);
+                        if k < n {
+                            s.p_remove(0, k);
+                            s.p_obs("collect", 0);
+                            s.p_obs("agg", 0);
+                        }
+                        s.p_obs("size", 0);
+                        emit(s.line(focus, None));
+                        st.bump(&format!("exhaustive_n{}_{}_build{}", n, kind.name(), variant));
                     }
-                    1 => {
-                        item(&mut s, n - 1);
-                        for i in (0..n - 1).rev() {
-                            item(&mut s, i);
-                            s.p_merge(1, 0);
-                        }
-                    }
-                    _ => {
-                        for i in 0..n {
-                            item(&mut s, i);
-                        }
-                        for i in (0..n - 1).rev() {
-                            s.p_merge(i, i + 1);
-                        }
-                    }
-                }
-                let (t1, t2, t3) = (s.tag(), s.tag(), s.tag());
-                s.p_tag(0, t1);
-                s.p_splitat(0, k);
-                s.p_tag(0, t2);
-                for w in ["agg", "first", "last"] {
-                    s.p_obs(w, 0);
-                    s.p_obs(w, 1);
-                }
-                s.p_tag(1, t3);
-                s.p_obs("collect", 1);
-                s.p_merge(0, 1);
-                s.p_obs("agg", 0);
-                s.p_obs("collect", 0);
-                s.p_remove(0, k);
-                s.p_obs("collect", 0);
-                s.p_obs("agg", 0);
-                s.p_obs("size", 0);
-                emit(s.line(focus, None));
-                st.bump(&format!("exhaustive_n{}", n));
-                if k == n {
-                    st.bump("remove_past_end_panics");
                 }
             }
         }
     }
 }
 
-/// (iii) random structured histories
-fn random_history(focus: &str, kind: Kind, own: bool, len: usize, rng: &mut SplitMix64, st: &mut Stats) -> String {
+fn bucket(n: usize) -> &'static str {
+    match n {
+        0..=3 => "000-003",
+        4..=7 => "004-007",
+        8..=15 => "008-015",
+        16..=31 => "016-031",
+        32..=63 => "032-063",
+        64..=127 => "064-127",
+        _ => "128+",
+    }
+}
+
+/// (iii) random structured histories. `target` = number of nodes to grow to before the operation
+/// mix becomes unbiased (0 = small history); `steps` counts *composed* operations.
+fn random_history(focus: &str, kind: Kind, own: bool, target: usize, rng: &mut SplitMix64, st: &mut Stats) -> String {
     let pol = if focus == "C16" && rng.chance(1, 2) { 6 } else { rng.below(7) };
     let pm = if own { Some(rng.below(6)) } else { None };
     let set_mode = rng.chance(1, 3);
-    let max_items = if kind == Kind::Aff { 40 } else { 80 };
+    // a small separate stream outside the stated domain (positions past the end, non-monotone predicates)
+    let ood = !set_mode && rng.chance(1, 25);
+    let cap = if kind == Kind::Aff { 90 } else { 400 };
+    let target = target.min(cap - 10);
+    let max_items = if target == 0 { 40 } else { (target + 30).min(cap) };
+    let steps = if target == 0 { 25 } else { target + 40 };
     let mut s = Sim::new(kind, own, pol, rng);
     if own {
         s.p_new();
     }
-    let mut ood = false;
-    while s.ops.len() < len {
+    let mut is_ood = false;
+    for _ in 0..steps {
         let live = s.seqs.len();
         if live == 0 {
             let v = s.val();
             s.p_item(v);
             continue;
         }
-        let i = s.rng.below(live as u64) as usize;
+        let i = if target > 0 {
+            // prefer the biggest treap so that it actually grows
+            let big = (0..live).max_by_key(|&j| s.seqs[j].len()).unwrap();
+            if s.rng.chance(2, 3) { big } else { s.rng.below(live as u64) as usize }
+        } else {
+            s.rng.below(live as u64) as usize
+        };
         let n = s.seqs[i].len();
         let can_create = s.created < max_items;
-        match s.rng.below(20) {
+        let growing = s.total() < target && can_create;
+        let roll = if growing && s.rng.chance(7, 10) { 0 } else { s.rng.below(20) };
+        if set_mode {
+            match roll {
+                0..=6 if can_create => {
+                    let v = s.val();
+                    if s.sorted_insert(i, v) {
+                        st.bump("op_sorted_insert_via_split_by");
+                    } else {
+                        s.p_item(v);
+                        st.bump("op_from_item");
+                    }
+                }
+                7 | 8 if n > 0 => {
+                    let k = s.rng.below(n as u64) as usize;
+                    s.p_remove(i, k);
+                    st.bump("op_remove");
+                }
+                9 | 10 => {
+                    let t = s.mono_tag();
+                    s.p_tag(i, t);
+                    st.bump("op_tag_root");
+                }
+                11..=14 => {
+                    if live < 6 && s.sorted_splitby(i) {
+                        st.bump("op_split_by_sorted_interior");
+                    }
+                }
+                15 | 16 if n > 0 => {
+                    let (a, b) = (s.rng.below(n as u64) as usize, s.rng.below(n as u64) as usize);
+                    s.range(i, a.min(b), a.max(b), None, true);
+                    st.bump("op_range_agg");
+                }
+                17 => {
+                    s.p_obs("first", i);
+                    s.p_obs("last", i);
+                    st.bump("op_first_last");
+                }
+                18 => {
+                    s.p_obs("collect", i);
+                    st.bump("op_collect");
+                }
+                _ => {
+                    s.p_obs("agg", i);
+                    s.p_obs("size", i);
+                    st.bump("op_agg_size");
+                }
+            }
+            continue;
+        }
+        match roll {
             0 | 1 | 2 | 3 if can_create => {
                 let v = s.val();
-                if set_mode && s.sorted_insert(i, v) {
-                    st.bump("op_sorted_insert_via_split_by");
+                let k = if ood && s.rng.chance(1, 4) {
+                    is_ood = true;
+                    n + 1 + s.rng.below(3) as usize
                 } else {
-                    // positions past the end are allowed by `split_at` (everything goes left)
-                    let k = if s.rng.chance(1, 30) { n + 1 + s.rng.below(3) as usize } else { s.rng.below(n as u64 + 1) as usize };
-                    s.insert(i, k, v);
-                    st.bump("op_insert");
-                }
+                    s.rng.below(n as u64 + 1) as usize
+                };
+                s.insert(i, k, v);
+                st.bump("op_insert");
             }
             4 if can_create && live < 5 => {
                 let v = s.val();
@@ -367,13 +515,14 @@ fn random_history(focus: &str, kind: Kind, own: bool, len: usize, rng: &mut Spli
                 st.bump("op_from_item");
             }
             5 => {
-                if n > 0 && !s.rng.chance(1, 12) {
+                if n > 0 && !(ood && s.rng.chance(1, 3)) {
                     let k = s.rng.below(n as u64) as usize;
                     s.p_remove(i, k);
                     st.bump("op_remove");
-                } else {
+                } else if ood {
                     let k = n + s.rng.below(2) as usize;
                     s.p_remove(i, k);
+                    is_ood = true;
                     st.bump("op_remove_past_end");
                 }
             }
@@ -399,22 +548,29 @@ fn random_history(focus: &str, kind: Kind, own: bool, len: usize, rng: &mut Spli
                 if j >= i {
                     j += 1;
                 }
-                s.p_merge(i, j);
-                st.bump("op_merge");
+                if kind == Kind::Sum || s.seqs[i].len() + s.seqs[j].len() <= 90 {
+                    s.p_merge(i, j);
+                    st.bump("op_merge");
+                }
             }
             13 if live < 5 => {
                 if s.rng.chance(1, 2) {
-                    let k = s.rng.below(n as u64 + 2) as usize;
+                    let k = if ood && s.rng.chance(1, 3) {
+                        is_ood = true;
+                        n + 1 + s.rng.below(2) as usize
+                    } else {
+                        s.rng.below(n as u64 + 1) as usize
+                    };
                     s.p_splitat(i, k);
                     st.bump("op_split_at");
-                } else if s.mono_splitby(i) {
+                } else if n > 0 && s.mono_splitby(i) {
                     st.bump("op_split_by");
-                } else if !own && s.rng.chance(1, 8) {
-                    // outside the property's domain: a predicate that is not prefix-monotone
-                    // (only in the controlled stream: the result then depends on the shape)
+                } else if ood && !own {
+                    // a predicate that is not prefix-monotone (only in the controlled stream: the
+                    // result then depends on the shape)
                     let c = s.val();
                     s.p_splitby(i, "lt", c);
-                    ood = true;
+                    is_ood = true;
                     st.bump("op_split_by_not_monotone");
                 }
             }
@@ -453,17 +609,40 @@ fn random_history(focus: &str, kind: Kind, own: bool, len: usize, rng: &mut Spli
         s.p_obs("collect", i);
         s.p_obs("agg", i);
     }
-    if ood {
-        st.bump("histories_out_of_domain");
+    if is_ood {
+        st.bump("histories_out_of_stated_domain");
     }
     if s.restructs_after_tag > 0 {
-        st.bump("histories_with_restructuring_under_pending_tags");
+        st.bump("histories_with_restructuring_after_a_tag");
     }
     st.bump(&format!("histories_{}_{}", kind.name(), if own { "own" } else { "ctl" }));
+    if set_mode {
+        st.bump("histories_sorted_discipline");
+    }
+    st.bump(&format!("size_max_treap_{}", bucket(s.max_size)));
+    st.bump(&format!("size_nodes_created_{}", bucket(s.created)));
+    st.add("split_by_interior", s.splitby_interior as u64);
+    st.add("split_by_interior_of_6_or_more", s.splitby_interior_big as u64);
+    st.add("split_by_all_left_or_all_right", s.splitby_trivial as u64);
     if !own {
         st.bump(&format!("priority_policy_{}", pol));
     }
     s.line(focus, pm)
+}
+
+/// a batch of random histories: `n` small ones plus shares that grow to medium / large treaps
+fn random_batch(focus: &str, own: bool, n_small: usize, n_medium: usize, n_large: usize, rng: &mut SplitMix64, emit: &mut dyn FnMut(String), st: &mut Stats) {
+    for h in 0..n_small + n_medium + n_large {
+        let kind = if h % 2 == 0 { Kind::Sum } else { Kind::Aff };
+        let target = if h < n_small {
+            0
+        } else if h < n_small + n_medium {
+            20 + rng.below(45) as usize
+        } else {
+            70 + rng.below(180) as usize
+        };
+        emit(random_history(focus, kind, own, target, rng, st));
+    }
 }
 
 /// C16, `own` stream: the operation orders that degenerate an unbalanced tree, as explicit operations
@@ -485,13 +664,34 @@ fn adversarial(pattern: u64, n: usize, rng: &mut SplitMix64) -> String {
                     s.p_merge(1, 0);
                 }
             }
-            _ => {
+            4 => {
                 let k = s.rng.below(len as u64 + 1) as usize;
                 if len > 4 && s.rng.chance(1, 5) {
                     s.p_remove(0, k.min(len - 1));
                 } else {
                     s.p_insert(0, k, it as i64);
                 }
+            }
+            5 => {
+                // sorted append assembled from one-element treaps made by `from_item`
+                s.p_item(it as i64);
+                s.p_merge(0, 1);
+            }
+            6 => {
+                // ... made by `Treap::new()` + `insert_at`
+                s.p_new();
+                s.p_insert(1, 0, it as i64);
+                s.p_merge(0, 1);
+            }
+            _ => {
+                // ordinary appends with a scratch treap created in between: split, merge through
+                // the empty scratch treap, merge back
+                s.p_insert(0, len, it as i64);
+                let k = s.rng.below(len as u64 + 2) as usize;
+                s.p_splitat(0, k);
+                s.p_new();
+                s.p_merge(0, 2);
+                s.p_merge(0, 1);
             }
         }
     }
@@ -505,59 +705,62 @@ pub fn gen(args: &Args, emit: &mut dyn FnMut(String), st: &mut Stats) {
     if focus == "C03" {
         if thorough {
             exhaustive("C03", 5, 5, emit, st, &mut rng);
+            random_batch("C03", false, 90_000, 12_000, 3_000, &mut rng, emit, st);
+            random_batch("C03", true, 22_000, 4_000, 1_000, &mut rng, emit, st);
         } else {
             exhaustive("C03", 4, 5, emit, st, &mut rng);
-        }
-        let (n_ctl, n_own) = if thorough { (120_000, 30_000) } else { (2_400, 600) };
-        for h in 0..n_ctl {
-            let kind = if h % 2 == 0 { Kind::Sum } else { Kind::Aff };
-            emit(random_history("C03", kind, false, 60, &mut rng, st));
-        }
-        for h in 0..n_own {
-            let kind = if h % 2 == 0 { Kind::Sum } else { Kind::Aff };
-            emit(random_history("C03", kind, true, 60, &mut rng, st));
+            random_batch("C03", false, 2_000, 300, 100, &mut rng, emit, st);
+            random_batch("C03", true, 500, 80, 20, &mut rng, emit, st);
         }
     } else {
-        // controlled priorities: heap order after every operation, canonical shape at the end
+        // controlled priorities: heap order after every operation, shape at the end
         if thorough {
             exhaustive("C16", 4, 5, emit, st, &mut rng);
+            random_batch("C16", false, 20_000, 3_000, 1_000, &mut rng, emit, st);
+            random_batch("C16", true, 2_500, 400, 100, &mut rng, emit, st);
         } else {
             exhaustive("C16", 3, 4, emit, st, &mut rng);
-        }
-        let n_ctl = if thorough { 30_000 } else { 800 };
-        for h in 0..n_ctl {
-            let kind = if h % 2 == 0 { Kind::Sum } else { Kind::Aff };
-            emit(random_history("C16", kind, false, 60, &mut rng, st));
+            random_batch("C16", false, 600, 150, 50, &mut rng, emit, st);
+            random_batch("C16", true, 120, 25, 5, &mut rng, emit, st);
         }
         // rlib's own priorities, explicit operations
-        let n_own = if thorough { 3_000 } else { 150 };
-        for h in 0..n_own {
-            let kind = if h % 2 == 0 { Kind::Sum } else { Kind::Aff };
-            emit(random_history("C16", kind, true, 60, &mut rng, st));
-        }
-        let (reps, size) = if thorough { (8, 1500) } else { (1, 300) };
-        for pattern in 0..5u64 {
+        let (reps, size) = if thorough { (6, 1500) } else { (1, 300) };
+        for pattern in 0..8u64 {
             for r in 0..reps {
                 emit(adversarial(pattern, size / (1 + r % 3), &mut rng));
                 st.bump(&format!("adversarial_explicit_pattern_{}", pattern));
             }
         }
-        // measured: adversarial histories with rlib's priorities up to 10^6 elements
+        // measured: adversarial histories with rlib's priorities up to 10^6 elements; every case is
+        // self-contained (fresh thread = start of the priority stream, `burn` moves it forward)
         let sizes: Vec<usize> = if thorough { vec![1_000, 31_623, 1_000_000] } else { vec![1_000, 100_000] };
         for &n in &sizes {
             let sd = rng.below(1 << 30);
+            let burn = if thorough { rng.below(5_000_000) } else { 0 };
+            let rotn = (n / 10).min(20_000);
             for line in [
                 format!("C16 sum big ; append {}", n),
                 format!("C16 sum big ; front {}", n),
                 format!("C16 sum big ; alt {}", n),
                 format!("C16 sum big ; mid {}", n),
                 format!("C16 sum big ; rand {} {}", n, sd),
-                format!("C16 sum big ; append {} ; rot {} {} ; del {} {} ; front {}", n, (n / 10).min(20_000), sd + 1, n / 2, sd + 2, n / 4),
-                format!("C16 sum big ; front {} ; rot {} {} ; append {} ; del {} {}", n / 2, (n / 10).min(20_000), sd + 3, n / 2, n / 3, sd + 4),
+                // many `Treap` objects: the sequence assembled from one-element treaps, scratch treaps
+                // between operations, split results merged back
+                format!("C16 sum big ; singles {}", n),
+                format!("C16 sum big ; fromitem {}", n),
+                format!("C16 sum big ; scratch {}", n),
+                format!("C16 sum big ; burn {} ; singles {} ; pieces {} {} ; fromitem {} ; pieces {} {}", burn, n / 2, (n / 50).max(2), sd + 5, n / 2, (n / 200).max(2), sd + 6),
+                format!("C16 sum big ; burn {} ; append {} ; rot {} {} ; del {} {} ; front {}", burn / 2, n, rotn, sd + 1, n / 2, sd + 2, n / 4),
+                format!("C16 sum big ; front {} ; rot {} {} ; scratch {} ; del {} {} ; pieces {} {}", n / 2, rotn, sd + 3, n / 2, n / 3, sd + 4, (n / 100).max(2), sd + 7),
             ] {
                 emit(line);
                 st.bump(&format!("big_n{}", n));
             }
+        }
+        if !thorough {
+            // one longer sorted append so that a short-period generator shows up in the quick tier too
+            emit("C16 sum big ; append 300000".to_string());
+            st.bump("big_n300000");
         }
     }
 }
